@@ -24,6 +24,8 @@ P["C01"] = dict(
         "R-CLONE-AGREE: constants recomputed by both the forward and the inverse function are the same expression",
         "R-GRID-SIGN: grid corrections are applied with opposite signs forward and inverse",
         "R-SIGN-SLICE: every laea aspect (north/south polar) is reachable",
+        "R-PARAM-MIRROR: (program slice) the values written by the forward and by the inverse function of every "
+        "invertible operator depend on the same set of parameters",
     ],
     not_decided=["numerical round-trip accuracy of any operator", "domain limits", "grid based shifts"],
     level="Decides structural clauses that are necessary conditions of 'inverse undoes forward' (see decides); does "
@@ -248,7 +250,9 @@ P["C13"] = dict(
              "(through stored intermediates such as tmerc's zb); inverse, every use is `input - origin`",
              "R-UTM-CONSTANTS: both utm constructors set k_0=0.9996, lon_0=6*zone-183, lat_0=0, x_0=500000, y_0=0 / "
              "10000000 under south, zone in 1..=60", "R-NOOP-ALIAS: noop aliases write nothing and return len()",
-             "R-SIGN-SLICE: north/south aspect selection depends on the sign of the latitude parameter"],
+             "R-SIGN-SLICE: north/south aspect selection depends on the sign of the latitude parameter",
+             "R-PARAM-EFFECT: (program slice) every parameter an operator declares reaches the values it writes, directly "
+             "or through a key its constructor derives from it - no declared parameter is silently ignored"],
     not_decided=["k_0 linearity", "lat_ts == corresponding k_0", "1SP == 2SP lcc", "merc == webmerc on a sphere",
                  "scaling with the semi-major axis"],
     level="Decides the unit, false-origin, UTM-constant and alias conventions structurally on all paths; the "
